@@ -2267,10 +2267,17 @@ func (c *Conn) handleCloseError(closeErr *closeError) {
 		transportErrorCode = &code
 	}
 
-	c.streamsMap.CloseWithError(e)
-	if c.datagramQueue != nil {
-		c.datagramQueue.CloseWithError(e)
-	}
+	// Unblock the application's stream and datagram calls only after the connection IDs have been
+	// replaced or removed in the packet handler map below. An application that re-dials as soon as a
+	// stream call fails registers the new connection with the transport. With zero-length connection
+	// IDs it is registered under the same (empty) ID, which this connection would then overwrite or
+	// delete, cutting the new connection off from all incoming packets.
+	defer func() {
+		c.streamsMap.CloseWithError(e)
+		if c.datagramQueue != nil {
+			c.datagramQueue.CloseWithError(e)
+		}
+	}()
 
 	// In rare instances, the connection ID manager might switch to a new connection ID
 	// when sending the CONNECTION_CLOSE frame.
